@@ -25,17 +25,14 @@ Duplicate-key family (kind `dup-key`, gen_serde.dup_key_case; outside has_type):
 pairs that repeats a key — try_from and parse(to_string) must end up with the same value for the repeated key.
 
 Known classes (recorded defects, see DESIGN.md section 7 / known_findings.json):
-  C13-tryinto-datetime-string  `impl Deserializer for toml::Value` hands a date-time to the visitor as a STRING
-        (`Value::Datetime(v) => visitor.visit_string`): via toml::Value / toml::Table `try_into` a Datetime/Date/Time
-        field fails ("invalid type: string, expected a TOML datetime") and an untyped toml::Value leaf silently
-        becomes Value::String.  Classifier: route tval / ttab / tvdval, the type has a date-time or untyped-Value leaf
-        and the text really contains a date-time.
-  C13-tryfrom-datetime-table   toml::value::ValueSerializer::serialize_struct ignores the date-time tunnel name:
-        Value::try_from / Table::try_from of a value containing a date-time yields a Table with the private key
-        `$__toml_private_datetime`.  Classifier: `tryfrom` comparison, the value contains a date-time.
-  (repaired in /repo: C13-valueser-root-tuple-variant — toml::ser::ValueSerializer wrote a tuple variant at the root
-        as a bare array, dropping its name; it now writes `{ T = [1, 2] }` like toml_edit's ValueSerializer.  The
-        former witness stays in the fixed cases as a regression case.)
+  (repaired in /repo, no longer accepted as classes; the former witnesses stay in the fixed cases as regression cases:
+     C13-tryinto-datetime-string  `impl Deserializer for toml::Value` handed a date-time to the visitor as a STRING;
+        it now hands the private one-entry map, as toml_edit's deserializer does (a Datetime/Date/Time field decodes via
+        toml::Value / toml::Table `try_into`, an untyped toml::Value leaf stays Value::Datetime).
+     C13-tryfrom-datetime-table   toml::value::ValueSerializer::serialize_struct ignored the date-time tunnel name and
+        wrote a Table with the private key `$__toml_private_datetime`; it now yields Value::Datetime.
+     C13-valueser-root-tuple-variant  toml::ser::ValueSerializer wrote a tuple variant at the root as a bare array,
+        dropping its name; it now writes `{ T = [1, 2] }` like toml_edit's ValueSerializer.)
   C07-tryfrom-nested-none-dropped   (see lib/props/c07.py) shows here as try_from = Ok where to_string = Err(unsupported-none).
   private-datetime-key (F14)   the case spells one of the private in-band names.
 """
@@ -52,10 +49,8 @@ HARNESS = {"bin": "serde"}
 THEOREMS = [
     "level: the TOML value tree; a decoding route = a function of (type, tree the text parses to) (coq/Model/SerdeRoutes.v decode): t e esl edoc eim efs tvd evd = de_value; tval tvdval = to_toml_value then tv_de; ttab = to_toml_table then tv_de",
     "C13_twin_deserializers / C13_decode_routes: for every type without char-keyed maps and EVERY tree, any two routes that succeed return equal values (up to map order); the table route needs a root with distinct keys not starting with the private key",
-    "C13_on_serialized_refuted: 'every route succeeds on serialized text' is FALSE (known finding C13-tryinto-datetime-string), proved with the witness",
-    "C13_on_serialized_partial / C13_on_serialized_value: every toml_edit-based route returns the value for every type, on the document and on the single-value text (C13_value_text_tuple_variant: the former witness of the repaired C13-valueser-root-tuple-variant); the toml::Value / toml::Table routes too when the serialized tree shows no date-time and no private key",
-    "C13_try_from_refuted: Value::try_from differs from parse(to_string) on a date-time (known finding C13-tryfrom-datetime-table)",
-    "C13_try_from_partial / C13_twin_serializers: Value::try_from / Table::try_from build exactly the toml::Value (same key order) the serialized document parses to, when it shows no date-time and no private key",
+    "C13_on_serialized / C13_on_serialized_value: every toml_edit-based route returns the value for every type, on the document and on the single-value text; the toml::Value / toml::Table routes too, date-times included, when no table key of the serialized tree spells the private tunnel name (F14).  C13_on_serialized_datetime, C13_value_text_tuple_variant: the former witnesses of the repaired C13-tryinto-datetime-string and C13-valueser-root-tuple-variant, now positive; C13_datetime_is_not_a_string: no route hands the text of a date-time to a String target",
+    "C13_try_from / C13_twin_serializers: Value::try_from / Table::try_from build exactly the toml::Value (same key order) the serialized document parses to, date-times included, when no table key spells the private tunnel name (C13_try_from_datetime: the former witness of the repaired C13-tryfrom-datetime-table)",
 ]
 RULE = ("(type, document) pairs: documents rendered from a random value of the type in random layouts, the same with one "
         "tree mutation (extra / missing / retyped / out-of-range entry) or decoded at a mutated type; library-serialized "
@@ -73,35 +68,7 @@ ASSUMPTIONS = [
 N_FIDELITY = 37
 DOC_ROUTES = ["t", "e", "esl", "edoc", "eim", "tval", "ttab", "efs"]
 VAL_ROUTES = ["tvd", "evd", "tvdval"]
-VALUE_FAMILY = ("tval", "ttab", "tvdval")
 STATS = collections.Counter()
-
-
-def val_has_datetime(v):
-    k = v[0]
-    if k == "X":
-        return True
-    if k in ("O", "W"):
-        return val_has_datetime(v[1])
-    if k in ("L", "R"):
-        return any(val_has_datetime(x) for x in v[1])
-    if k == "M":
-        return any(val_has_datetime(a) or val_has_datetime(b) for a, b in v[1])
-    if k == "E":
-        return val_has_datetime(v[2])
-    if k == "V":
-        return tv_has_datetime(v[1])
-    return False
-
-
-def tv_has_datetime(v):
-    if v[0] == "X":
-        return True
-    if v[0] == "L":
-        return any(tv_has_datetime(x) for x in v[1])
-    if v[0] == "T":
-        return any(tv_has_datetime(x) for _, x in v[1])
-    return False
 
 
 def tree_has_datetime(n):
@@ -112,10 +79,6 @@ def tree_has_datetime(n):
     if n[0] == "t":
         return any(tree_has_datetime(x) for _, x in n[1])
     return False
-
-
-def dt_or_value_leaf(ty):
-    return G.ty_any(ty, lambda x: x[0] in ("dt", "da", "ti", "v"))
 
 
 # ---------------------------------------------------------------------------------------------
@@ -240,6 +203,10 @@ S3_VAL = ("R", [("O", ("L", [("O", ("I", 1)), ("N",)]))])
 # enum E { T(i32, i32) }, E::T(1, 2): toml::ser::ValueSerializer wrote `[1, 2]` (C13-valueser-root-tuple-variant, repaired): regression case
 TV_TY = ("E", "E", [("T", "t", [("int", "i32"), ("int", "i32")])])
 TV_VAL = ("E", 0, ("L", [("I", 1), ("I", 2)]))
+# F14 on serialized text: struct S { m: BTreeMap<String, i32> } with the private field name as a key — to_string writes
+# `[m]` / `"$__toml_private_datetime" = 127`, which toml::Value's visitor takes for a date-time (routes tval / ttab fail)
+F14_TY = ("S", "S", [("m", ("M", ("s",), ("int", "i32")))])
+F14_VAL = ("R", [("M", [(("S", "$__toml_private_datetime"), ("I", 127))])])
 
 
 def fixed_cases(rng):
@@ -250,7 +217,9 @@ def fixed_cases(rng):
     out.append(vcase("tryfrom", VLEAF_TY, VLEAF_VAL, "S1-witness"))
     out.append(vcase("tryfrom", S3_TY, S3_VAL, "S3-witness"))
     out.append(vcase("routes_ser", TV_TY, TV_VAL, "S4-witness"))
-    # F14: a table whose first key is the private field name
+    out.append(vcase("routes_ser", F14_TY, F14_VAL, "F14-witness"))
+    # F14: a table whose first key is the private field name (all routes read a date-time / fail alike since the repair
+    # of C13-tryinto-datetime-string)
     f14 = ("S", "S", [("t", ("v",))])
     out.append(Case("routes", [G.ty_str(f14).encode(), b"[t]\n\"$__toml_private_datetime\" = \"1979-05-27\"\n", b""],
                     {"kind": "F14-witness", "ty": f14, "depth": 2, "has_dt": False, "root_table": True}))
@@ -322,8 +291,6 @@ def judge(case, line):
         v = case.meta.get("v")
         text = b" ".join(case.args[1:]).decode("utf-8", "replace") if case.cmd == "routes" else ""
         private = G.mentions_private(ty, v, text)
-        has_dt = case.meta.get("has_dt") if case.cmd == "routes" else (v is not None and val_has_datetime(v))
-        dt_class = "C13-tryinto-datetime-string" if (has_dt and dt_or_value_leaf(ty)) else None
         if case.cmd == "routes":
             if case.meta.get("root_table") and f.get("valid") != "1":
                 return [("generator bug: rendered document is not valid TOML: %r" % text[:300], None)]
@@ -376,7 +343,7 @@ def judge(case, line):
                 if x is None:
                     out.append(("route %s missing" % r, None))
                     continue
-                cls = "private-datetime-key" if private else (dt_class if r in VALUE_FAMILY else None)
+                cls = "private-datetime-key" if private else None
                 if x == "err":
                     STATS["err:" + r] += 1
                     if must_all_succeed:
@@ -392,8 +359,7 @@ def judge(case, line):
                         out.append(("route %s decodes the rendered text to a value different from the one it was rendered from: %s" % (r, dumps[r][:300]), cls))
                     continue
                 if not G.sval_eq(reference[1], got):
-                    # the class is decided by which family the two disagreeing routes belong to
-                    c2 = cls or ("private-datetime-key" if private else (dt_class if (reference[0] in VALUE_FAMILY) else None))
+                    c2 = cls
                     if reference[0] == "in":
                         out.append(("route %s returns a value different from the serialized one: %s" % (r, dumps[r][:300]), c2))
                     else:
@@ -402,10 +368,9 @@ def judge(case, line):
     if case.cmd == "tryfrom":
         v = case.meta["v"]
         private = G.mentions_private(ty, v)
-        has_dt = val_has_datetime(v)
         for a, b, route in (("val", "txt", "val"), ("tab", "ttxt", "tab")):
             x, y = f.get(a, ""), f.get(b, "")
-            cls = "private-datetime-key" if private else ("C13-tryfrom-datetime-table" if has_dt else None)
+            cls = "private-datetime-key" if private else None
             if x.startswith("ok:") and y.startswith("ok:"):
                 STATS["tryfrom-both-ok"] += 1
                 if y[3:] == "=":
